@@ -274,6 +274,12 @@ func (r *resolver) stmt(x *Node, s *scope) {
 	switch x.K {
 	case "define":
 		name := x.S
+		// the compiler resolves the name for its redeclaration check; resolving
+		// an enclosing function's local from inside a function captures it
+		// (observable only as one more closure allocation)
+		if d, _ := s.lookup(name); d != nil {
+			r.use(s, d)
+		}
 		if _, ok := s.names[name]; ok {
 			r.fail("redeclared", x, "'%s' redeclared in this block", name)
 			return
